@@ -254,7 +254,56 @@ def g_witness(R, tier):
                        "class A:\n    def more(self):\n        return False\nclass B(A):\n    def run(self):\n        while super().more():\n            pass\n        return 'ok'\nr = B().run()\n")
 
 
-GROUPS = {"witness": g_witness, "class_shape": g_class_shape, "methods": g_methods, "class_header_order_and_decorators": c07.g_classdef, "method_super_free_names": c06.g_method_super,
+def g_zero_arg_super(R, tier):
+    """PEP 3135 / data model 3.3.3.6: `super()` without arguments means super(__class__, <first
+    positional parameter of the function the call is written in>).  The converted text evaluates
+    source expressions inside helper lambdas that have parameters of their own (the test of a
+    while loop), so the transformer must spell the two arguments out wherever the call belongs to
+    the method itself; inside a lambda of the script (its own function) and under a comprehension
+    target that hides the parameter the call is left as written."""
+    E = c06.et()
+    ns = c06.NS()
+    base = "expr_transform.expr_transf[super()]"
+    for kind in ("function", "class", "global"):
+        for uses_super in (True, False):
+            for first in ("me", None):
+                for stack in ("plain", "in-comprehension", "under-a-target-named-like-the-parameter", "in-lambda"):
+                    if kind != "function" and (not uses_super or first is None or stack != "plain"):
+                        continue
+                    def run(c):
+                        m = Machine(stubs={"oneliner.reserved_identifiers:ol_name": CL.stub_ol_name()})  # the REAL transformer
+                        fields = dict(zero_arg_super_used=uses_super, first_parameter=first, is_method=uses_super) if kind == "function" else {}
+                        nsp = CL.mk_nsp("nsp", kinds=(kind,), **fields)
+                        if stack == "in-comprehension":
+                            nsp.fields["comp_stack"].append(Opaque("comp", None, cands=frozenset([E.PendingComp]), fields=dict(target_names={"other"})))
+                        elif stack == "under-a-target-named-like-the-parameter":
+                            nsp.fields["comp_stack"].append(Opaque("comp", None, cands=frozenset([E.PendingComp]), fields=dict(target_names={"other", "me"})))
+                        elif stack == "in-lambda":
+                            nsp.fields["comp_stack"].append(Opaque("lam", None, cands=frozenset([E.PendingLambda]), fields=dict(target_names={"x"})))
+                        node = ast.Call(func=ast.Name(id="super", ctx=ast.Load()), args=[], keywords=[])
+                        return dict(res=m.call_value(E.expr_transf, nsp, node), node=node)
+                    paths = explore(run)
+                    nm = f"{base}[{kind},{'uses-super' if uses_super else 'no-super'},first={first},{stack}]"
+                    if not paths_or_undecided(R, nm + "/paths", paths):
+                        continue
+                    own = kind == "function" and uses_super and first is not None and stack in ("plain", "in-comprehension")
+                    for p in paths:
+                        sig = p.ctx.signature()
+                        if p.kind != "ok":
+                            R.fail(f"{nm}/no-unexpected-raise/{sig}", repr(p.value))
+                            continue
+                        res = p.value["res"]
+                        is_load = lambda e, name: isinstance(e, Opaque) and (e.props.get("sem") or (0,))[0] == "load" and e.props["sem"][1] == "nsp" and e.props["sem"][2] == name
+                        okcall = isinstance(res, ast.Call) and res is not p.value["node"] and is_load(res.func, "super") and not res.keywords
+                        if own:
+                            ok = okcall and len(res.args) == 2 and isinstance(res.args[0], ast.Name) and res.args[0].id == "__class__" and is_load(res.args[1], first)
+                            R.check(f"{nm}/the-two-arguments-are-spelled-out/{sig}", bool(ok), ast.dump(res) if isinstance(res, ast.AST) else repr(res),
+                                    replay=dict(kind="src", src=c07._SUPER_SRC, expect="same-globals"))
+                        else:
+                            R.check(f"{nm}/left-as-written/{sig}", bool(okcall and not res.args), ast.dump(res) if isinstance(res, ast.AST) else repr(res), replay=dict(kind="classes"))
+
+
+GROUPS = {"zero_argument_super": g_zero_arg_super, "method_first_parameter": (lambda R, tier: c07.g_functiondef(R, tier, only="first-parameter")), "witness": g_witness, "class_shape": g_class_shape, "methods": g_methods, "class_header_order_and_decorators": c07.g_classdef, "method_super_free_names": c06.g_method_super,
           "canary": c13.g_canary}
 
 CLASS_PROGRAMS = [
@@ -297,3 +346,6 @@ from suites import thorough as _th
 GROUPS["thorough:class-programs"] = _th.bounded_from_replay("bounded/class-programs", replay_classes)
 from suites import progenum as _pg
 GROUPS["thorough:enum-class-statements"] = _th.only_thorough(_pg.g_f6)
+
+# bounded stand-ins for undecided obligations (olvc/oblig.py::main_check)
+STANDINS = {"*": [dict(kind="classes")]}
